@@ -1,2 +1,285 @@
+/-
+  C14 helper proofs: the hint of `BreakTime` / `MakeTime` only short-cuts the binary search.
+  If the hint brackets the argument it *is* the partition point the bisection finds
+  (`Tb.timeSplitU_bracket`, `Tb.civilSplit_bracket`), so the same transition is used and the same
+  computation (answer and flags) is carried out.
+-/
 import Cctz.Model.Tz
 import Cctz.Spec.TableSem
+import Cctz.Proofs.TbSearch
+
+namespace Cctz.Tb
+open Cctz Cctz.Tz Cctz.Spec
+
+/-! ## BreakTime -/
+
+theorem getTrans_eq (z : Zone) (i : Nat) (h : i < z.transitions.size) :
+    getTrans z i = pure (trn z i) := by
+  simp [getTrans, trn, Array.getD, h]
+
+/-- the hint-free answer of `breakTimeCore` -/
+def breakAns (z : Zone) (t : Int) : Ck AbsLookup :=
+  if t < (trn z 0).unixTime then getType z z.defaultType >>= localTimeTT z.abbreviations t
+  else if t ≥ (trn z (z.transitions.size - 1)).unixTime then
+    localTimeTr z t (trn z (z.transitions.size - 1))
+  else localTimeTr z t (trn z (upperBoundTime z.transitions t - 1))
+
+theorem breakTimeCore_char {z : Zone} (wf : TableWF z) (h : Nat) (t : Int) :
+    (breakTimeCore z h t).val.1 = (breakAns z t).val ∧
+    (breakTimeCore z h t).flags = (breakAns z t).flags := by
+  have hn := wf.nonempty
+  have g0 := getTrans_eq z 0 hn
+  have gl := getTrans_eq z (z.transitions.size - 1) (by omega)
+  unfold breakTimeCore breakAns
+  simp only [g0, gl]
+  by_cases c1 : t < (trn z 0).unixTime
+  · simp [c1]
+  · by_cases c2 : t ≥ (trn z (z.transitions.size - 1)).unixTime
+    · simp [c1, c2]
+    · have sp := upperBoundTime_spec wf t
+      have hk1 : 0 < upperBoundTime z.transitions t := by
+        rcases Nat.eq_zero_or_pos (upperBoundTime z.transitions t) with h0 | h0
+        · have := sp.2.2.2 0 (by omega) hn; omega
+        · exact h0
+      have gk := getTrans_eq z (upperBoundTime z.transitions t - 1) (by have := sp.2.1; omega)
+      by_cases c3 : 0 < h ∧ h < z.transitions.size
+      · have ga := getTrans_eq z (h - 1) (by omega)
+        have gb := getTrans_eq z h c3.2
+        by_cases c4 : (trn z (h - 1)).unixTime ≤ t
+        · by_cases c5 : t < (trn z h).unixTime
+          · have := timeSplitU_bracket sp c3.1 c3.2 c4 c5
+            subst this
+            simp [c1, c2, c3, c4, c5, ga, gb]
+          · simp [c1, c2, c3, c4, c5, ga, gb, gk]
+        · simp [c1, c2, c3, c4, ga, gk]
+      · simp [c1, c2, c3, gk]
+
+theorem breakTimeCore_hint {z : Zone} (wf : TableWF z) (h h' : Nat) (t : Int) :
+    (breakTimeCore z h t).val.1 = (breakTimeCore z h' t).val.1 ∧
+    (breakTimeCore z h t).flags = (breakTimeCore z h' t).flags := by
+  have a := breakTimeCore_char wf h t
+  have b := breakTimeCore_char wf h' t
+  exact ⟨a.1.trans b.1.symm, a.2.trans b.2.symm⟩
+
+theorem breakTime_hint {z : Zone} (wf : TableWF z) (h : Nat) (t : Int) :
+    (breakTime z h t).val.1 = (breakTime z 0 t).val.1 ∧
+    (breakTime z h t).flags = (breakTime z 0 t).flags := by
+  have e1 : ∀ t, (breakTimeCore z h t).val.1 = (breakTimeCore z 0 t).val.1 :=
+    fun t => (breakTimeCore_hint wf h 0 t).1
+  have e2 : ∀ t, (breakTimeCore z h t).flags = (breakTimeCore z 0 t).flags :=
+    fun t => (breakTimeCore_hint wf h 0 t).2
+  unfold breakTime
+  simp only [Ck.bind_val, Ck.bind_flags]
+  split
+  · simp only [Ck.bind_val, Ck.bind_flags, Ck.pure_val, Ck.pure_flags]
+    simp only [e2]
+    simp only [e1]
+    exact ⟨trivial, trivial⟩
+  · simp only [e1, e2, and_self]
+
+/-! ## MakeTime -/
+
+/-- the part of `makeTimeCore` that chooses the transition index (and the new hint) -/
+def selTr (z : Zone) (first last : Transition) (hint : Nat) (cs : Fields) : Ck (Nat × Nat) :=
+  (if Civil.lt cs first.civilSec then pure (0, hint)
+    else if !(Civil.lt cs last.civilSec) then pure (z.transitions.size, hint)
+    else do
+      let viaHint ← (if 0 < hint ∧ hint < z.transitions.size then do
+          let a ← getTrans z (hint - 1)
+          if Civil.le a.civilSec cs then
+            let b ← getTrans z hint
+            pure (Civil.lt cs b.civilSec)
+          else pure false
+        else pure false : Ck Bool)
+      if viaHint then pure (hint, hint)
+      else
+        let i := upperBoundCivil z.transitions cs
+        pure (i, i) : Ck (Nat × Nat))
+
+/-- the part of `makeTimeCore` after the index is chosen -/
+def mtRest (z : Zone) (first last : Transition) (cs : Fields) (tr hint' : Nat) :
+    Ck ((CivilLookup ⊕ Int) × Nat) := do
+  let timecnt := z.transitions.size
+  if tr = 0 then
+    if Civil.le cs first.prevCivilSec then
+      let tt ← getType z z.defaultType
+      if Civil.lt cs tt.civilMin then return (.inl (mkUnique i64min), hint')
+      let base ← Civil.civilAdd .second epoch tt.utcOffset
+      let d ← Civil.difference .second cs base
+      return (.inl (mkUnique d), hint')
+    let r ← makeSkipped first cs
+    return (.inl r, hint')
+  if tr = timecnt then
+    if Civil.lt last.prevCivilSec cs then
+      if z.extended then
+        let ly ← rd z.lastYear 0
+        if cs.y > ly then
+          let a ← chk64 (cs.y - ly)
+          let b ← chk64 (a - 1)
+          let shift ← chk64 (cdiv b 400 + 1)
+          return (.inr shift, hint')
+      let tt ← getType z last.typeIndex
+      if Civil.lt tt.civilMax cs then return (.inl (mkUnique i64max), hint')
+      let d ← Civil.difference .second cs last.civilSec
+      let r ← chk64 (last.unixTime + d)
+      return (.inl (mkUnique r), hint')
+    let r ← makeRepeated last cs
+    return (.inl r, hint')
+  let t ← getTrans z tr
+  if Civil.lt t.prevCivilSec cs then
+    let r ← makeSkipped t cs
+    return (.inl r, hint')
+  let p ← getTrans z (tr - 1)
+  if Civil.le cs p.prevCivilSec then
+    let r ← makeRepeated p cs
+    return (.inl r, hint')
+  let d ← Civil.difference .second cs p.civilSec
+  let r ← chk64 (p.unixTime + d)
+  return (.inl (mkUnique r), hint')
+
+theorem makeTimeCore_eq (z : Zone) (h : Nat) (cs : Fields) :
+    makeTimeCore z h cs =
+      (getTrans z 0 >>= fun first => getTrans z (z.transitions.size - 1) >>= fun last =>
+        selTr z first last h cs >>= fun x => mtRest z first last cs x.1 x.2) := by
+  rfl
+
+theorem ite_val' {c : Prop} [Decidable c] (x y : Ck α) :
+    (if c then x else y).val = if c then x.val else y.val := by split <;> rfl
+theorem ite_flags' {c : Prop} [Decidable c] (x y : Ck α) :
+    (if c then x else y).flags = if c then x.flags else y.flags := by split <;> rfl
+theorem ite_fst {c : Prop} [Decidable c] (x y : α × β) :
+    (if c then x else y).1 = if c then x.1 else y.1 := by split <;> rfl
+
+theorem mtRest_hint (z : Zone) (first last : Transition) (cs : Fields) (tr h1 h2 : Nat) :
+    (mtRest z first last cs tr h1).val.1 = (mtRest z first last cs tr h2).val.1 ∧
+    (mtRest z first last cs tr h1).flags = (mtRest z first last cs tr h2).flags := by
+  unfold mtRest
+  simp only [Ck.bind_val, Ck.bind_flags, Ck.pure_val, Ck.pure_flags, ite_val', ite_flags', ite_fst]
+  exact ⟨trivial, trivial⟩
+
+/-- hint-free index choice -/
+def selIdx (z : Zone) (cs : Fields) : Nat :=
+  if Civil.lt cs (trn z 0).civilSec then 0
+  else if !(Civil.lt cs (trn z (z.transitions.size - 1)).civilSec) then z.transitions.size
+  else upperBoundCivil z.transitions cs
+
+theorem selTr_char {z : Zone} (_wf : TableWF z) (cso : CivilSorted z) (h : Nat) (cs : Fields) :
+    (selTr z (trn z 0) (trn z (z.transitions.size - 1)) h cs).val.1 = selIdx z cs ∧
+    (selTr z (trn z 0) (trn z (z.transitions.size - 1)) h cs).flags = Flags.none := by
+  unfold selTr selIdx
+  by_cases c1 : Civil.lt cs (trn z 0).civilSec = true
+  · simp [c1]
+  · by_cases c2 : (!(Civil.lt cs (trn z (z.transitions.size - 1)).civilSec)) = true
+    · simp only [c1, c2]; simp
+    · have sp := upperBoundCivil_spec cso cs
+      by_cases c3 : 0 < h ∧ h < z.transitions.size
+      · have ga := getTrans_eq z (h - 1) (by omega)
+        have gb := getTrans_eq z h c3.2
+        by_cases c4 : Civil.le (trn z (h - 1)).civilSec cs = true
+        · by_cases c5 : Civil.lt cs (trn z h).civilSec = true
+          · have := civilSplit_bracket sp c3.1 c3.2 c4 c5
+            subst this
+            simp [c1, c2, c3, c4, c5, ga, gb]
+          · simp [c1, c2, c3, c4, c5, ga, gb]
+        · simp [c1, c2, c3, c4, ga]
+      · simp [c1, c2, c3]
+
+theorem makeTimeCore_hint {z : Zone} (wf : TableWF z) (cso : CivilSorted z) (h h' : Nat) (cs : Fields) :
+    (makeTimeCore z h cs).val.1 = (makeTimeCore z h' cs).val.1 ∧
+    (makeTimeCore z h cs).flags = (makeTimeCore z h' cs).flags := by
+  have hn := wf.nonempty
+  rw [makeTimeCore_eq, makeTimeCore_eq, getTrans_eq z 0 hn, getTrans_eq z (z.transitions.size - 1) (by omega)]
+  simp only [Ck.bind_val, Ck.bind_flags, Ck.pure_val, Ck.pure_flags]
+  have a := selTr_char wf cso h cs
+  have b := selTr_char wf cso h' cs
+  rw [a.1, a.2, b.1, b.2]
+  have := mtRest_hint z (trn z 0) (trn z (z.transitions.size - 1)) cs (selIdx z cs)
+    (selTr z (trn z 0) (trn z (z.transitions.size - 1)) h cs).val.2
+    (selTr z (trn z 0) (trn z (z.transitions.size - 1)) h' cs).val.2
+  rw [this.1, this.2]
+  exact ⟨rfl, rfl⟩
+
+/-- the second stage of the `TimeLocal` path of `makeTime` -/
+def mtShift2 (shift : Int) (r2 : CivilLookup ⊕ Int) (h2 : Nat) : Ck (CivilLookup × Nat) :=
+  match r2 with
+  | .inl cl => do
+    let cl' ← timeLocalShift cl shift
+    pure (cl', h2)
+  | .inr _ => ⟨(mkUnique 0, h2), flagFuel⟩
+
+/-- what `makeTime` does with the result of the first `makeTimeCore` -/
+def mtCont (z : Zone) (cs : Fields) (r : CivilLookup ⊕ Int) (h : Nat) : Ck (CivilLookup × Nat) :=
+  match r with
+  | .inl cl => pure (cl, h)
+  | .inr shift => do
+    let m ← chk64 (shift * -400)
+    let cs' ← yearShift cs m
+    let x ← makeTimeCore z h cs'
+    mtShift2 shift x.1 x.2
+
+theorem makeTime_eq (z : Zone) (h : Nat) (cs : Fields) :
+    makeTime z h cs = (makeTimeCore z h cs >>= fun x => mtCont z cs x.1 x.2) := by
+  rfl
+
+theorem mtShift2_hint (shift : Int) (r2 : CivilLookup ⊕ Int) (h1 h2 : Nat) :
+    (mtShift2 shift r2 h1).val.1 = (mtShift2 shift r2 h2).val.1 ∧
+    (mtShift2 shift r2 h1).flags = (mtShift2 shift r2 h2).flags := by
+  cases r2 with
+  | inl cl => exact ⟨rfl, rfl⟩
+  | inr v => exact ⟨rfl, rfl⟩
+
+theorem mtCont_hint {z : Zone} (wf : TableWF z) (cso : CivilSorted z) (cs : Fields)
+    (r : CivilLookup ⊕ Int) (h1 h2 : Nat) :
+    (mtCont z cs r h1).val.1 = (mtCont z cs r h2).val.1 ∧
+    (mtCont z cs r h1).flags = (mtCont z cs r h2).flags := by
+  cases r with
+  | inl cl => exact ⟨rfl, rfl⟩
+  | inr shift =>
+    unfold mtCont
+    simp only [Ck.bind_val, Ck.bind_flags]
+    generalize (yearShift cs (chk64 (shift * -400)).val).val = cs'
+    have e := makeTimeCore_hint wf cso h1 h2 cs'
+    have e2 := mtShift2_hint shift (makeTimeCore z h2 cs').val.1 (makeTimeCore z h1 cs').val.2
+      (makeTimeCore z h2 cs').val.2
+    rw [e.1, e.2, e2.1, e2.2]
+    exact ⟨rfl, rfl⟩
+
+theorem makeTime_hint {z : Zone} (wf : TableWF z) (cso : CivilSorted z) (h h' : Nat) (cs : Fields) :
+    (makeTime z h cs).val.1 = (makeTime z h' cs).val.1 ∧
+    (makeTime z h cs).flags = (makeTime z h' cs).flags := by
+  rw [makeTime_eq, makeTime_eq]
+  simp only [Ck.bind_val, Ck.bind_flags]
+  have e := makeTimeCore_hint wf cso h h' cs
+  have e2 := mtCont_hint wf cso cs (makeTimeCore z h' cs).val.1 (makeTimeCore z h cs).val.2
+    (makeTimeCore z h' cs).val.2
+  rw [e.1, e.2, e2.1, e2.2]
+  exact ⟨rfl, rfl⟩
+
+theorem convert_hint {z : Zone} (wf : TableWF z) (cso : CivilSorted z) (h h' : Nat) (cs : Fields) :
+    (convert z h cs).val.1 = (convert z h' cs).val.1 := by
+  unfold convert
+  simp only [Ck.bind_val, Ck.pure_val]
+  rw [(makeTime_hint wf cso h h' cs).1]
+
+/-! ## call histories -/
+
+theorem stepCall_answer {z : Zone} (wf : TableWF z) (cso : CivilSorted z) (h : Nat × Nat) (c : Call) :
+    (stepCall z h c).1 = stateless z c := by
+  cases c with
+  | lookupT t =>
+    show Answer.abs (breakTime z h.1 t).val.1 = Answer.abs (breakTime z 0 t).val.1
+    rw [(breakTime_hint wf h.1 t).1]
+  | lookupC cs =>
+    show Answer.civ (makeTime z h.2 cs).val.1 = Answer.civ (makeTime z 0 cs).val.1
+    rw [(makeTime_hint wf cso h.2 0 cs).1]
+
+theorem runCalls_stateless {z : Zone} (wf : TableWF z) (cso : CivilSorted z) (calls : List Call) :
+    ∀ h : Nat × Nat, runCalls z h calls = calls.map (stateless z) := by
+  induction calls with
+  | nil => intro h; rfl
+  | cons c cs ih =>
+    intro h
+    show (stepCall z h c).1 :: runCalls z (stepCall z h c).2 cs = stateless z c :: cs.map (stateless z)
+    rw [stepCall_answer wf cso h c, ih]
+
+end Cctz.Tb
